@@ -29,6 +29,10 @@ def theorem_names(module):
         m = re.match(r'\s*(?:@\[[^\]]*\]\s*)?(?:private\s+|protected\s+)?theorem\s+([^\s:({\[]+)', line)
         if m:
             names.append('.'.join(ns + [m.group(1)]))
+        # theorems proved in a lemma module and listed as part of the property: `#check @Fully.Qualified.name`
+        m = re.match(r'\s*#check\s+@([\w.\']+)', line)
+        if m:
+            names.append(m.group(1))
     return names
 
 
